@@ -62,6 +62,20 @@ const (
 	verifC07KeyLinkDroppedOnEdit = "C07/mesh-topology-link-dropped-on-upstream-edit"
 	// ensureServiceTxn runs the gateway wildcard logic for peer-imported proxies (cleanup is local only).
 	verifC07KeyPeerProxyWildcard = "C07/gateway-wildcard-row-for-peer-imported-proxy"
+	// ensureServiceTxn never retracts (connect-enabled, name) when an instance is updated IN PLACE and stops
+	// being connect-native; only deleteServiceTxn cleans up.
+	verifC07KeyConnectEnabledStale = "C07/connect-enabled-name-survives-in-place-update"
+	// insertConfigEntryWithTxn does nothing when a service-defaults entry that had a destination is rewritten
+	// without one: (destination, name) and the destination's wildcard gateway rows stay (and deleting the
+	// entry later does not clean up either, because the stored entry has no destination any more).
+	verifC07KeyDestinationStale = "C07/destination-name-survives-defaults-rewrite"
+	// deleteGatewayServiceTopologyMapping removes the ingress link service>gateway when ONE gateway-services row of
+	// the pair goes away, although another listener of the same gateway still routes to the service.
+	verifC07KeyIngressLinkDropped = "C07/ingress-topology-link-dropped-with-one-of-several-rows"
+	// checkGatewayWildcardsAndUpdate clones the wildcard row over the row of a service that the same gateway entry
+	// lists EXPLICITLY (same id for terminating gateways): the explicit link becomes FromWildcard, takes the
+	// wildcard's TLS settings, and is deleted when the service's last instance goes away.
+	verifC07KeyExplicitOverwritten = "C07/explicit-gateway-link-overwritten-by-wildcard"
 )
 
 var verifC07Cfg = &vs.C07Cfg{
@@ -454,7 +468,14 @@ func (m *verifC07Machine) checkKSN(cur *verifC07View, op *vs.Op) {
 	for _, k := range verifC07SortedKeys(cur.ksn) {
 		if !want[k] {
 			kind := k[:strings.Index(k, "|")]
-			m.report("C07/R3/kind-service-names/stale/kind="+kind+"/after="+after, "ksn:"+k, "after %s: kind-service-names holds %q which nothing in the base tables or config entries implies", op.Desc, k)
+			key := "C07/R3/kind-service-names/stale/kind=" + kind + "/after=" + after
+			switch {
+			case kind == string(structs.ServiceKindConnectEnabled) && (op.Kind == vs.Register || op.Kind == vs.Txn):
+				key = verifC07KeyConnectEnabledStale // nothing was deleted in this step: an in-place update dropped the last connect-enabled instance
+			case kind == string(structs.ServiceKindDestination) && after == vs.ConfigSet+"/"+structs.ServiceDefaults:
+				key = verifC07KeyDestinationStale
+			}
+			m.report(key, "ksn:"+k, "after %s: kind-service-names holds %q which nothing in the base tables or config entries implies", op.Desc, k)
 		}
 	}
 }
@@ -532,7 +553,21 @@ func (m *verifC07Machine) checkTopo(prev, cur *verifC07View, op *vs.Op) {
 	}
 	for _, pair := range verifC07SortedKeys(gwLinks) {
 		if _, ok := cur.topo[pair]; !ok {
-			m.report("C07/R3/mesh-topology/missing-gateway-link/after="+after, "topo:"+pair, "after %s: gateway-services links %s but mesh-topology has no such link", op.Desc, pair)
+			key := "C07/R3/mesh-topology/missing-gateway-link/after=" + after
+			if _, had := prev.topo[pair]; had {
+				lost := 0
+				for _, g := range prev.gw {
+					if g.gwKind == string(structs.ServiceKindIngressGateway) && g.service+">"+g.gateway == pair {
+						if _, still := cur.gwIDs[g.id()]; !still {
+							lost++
+						}
+					}
+				}
+				if lost > 0 {
+					key = verifC07KeyIngressLinkDropped // the link went away together with ONE of the pair's rows; another row is still there
+				}
+			}
+			m.report(key, "topo:"+pair, "after %s: gateway-services links %s but mesh-topology has no such link", op.Desc, pair)
 		}
 	}
 	for _, pair := range verifC07SortedKeys(cur.topo) {
@@ -588,6 +623,9 @@ func (m *verifC07Machine) checkGateways(prev, cur *verifC07View, op *vs.Op) {
 		if _, had := prev.gwIDs[g.id()]; !had && op.Kind == vs.Register && op.P.Reg.PeerName != "" && op.P.Reg.Service != nil && op.P.Reg.Service.Kind == structs.ServiceKindConnectProxy {
 			key = verifC07KeyPeerProxyWildcard
 		}
+		if _, had := prev.gwIDs[g.id()]; had && after == vs.ConfigSet+"/"+structs.ServiceDefaults && prev.dests[g.service] && !cur.dests[g.service] {
+			key = verifC07KeyDestinationStale // the row was justified by the destination entry that this step rewrote without destination
+		}
 		m.report(key, ent, "after %s: gateway-services row %+v is justified neither by an explicit service of the entry nor by a wildcard plus a local instance / connect instance / destination entry of %q", op.Desc, g, g.service)
 	}
 	// completeness
@@ -595,8 +633,12 @@ func (m *verifC07Machine) checkGateways(prev, cur *verifC07View, op *vs.Op) {
 		ge := cur.gwEntries[gk]
 		for _, e := range verifC07SortedKeys(ge.explicit) {
 			id := ge.name + "|" + e
-			if _, ok := cur.gwIDs[id]; !ok {
+			if row, ok := cur.gwIDs[id]; !ok {
 				m.report("C07/R3/gateway-services/missing-explicit-row/gwkind="+ge.gwKind+"/after="+after, "gs:"+id, "after %s: %s entry %q lists %q (service|port) but gateway-services has no such row", op.Desc, ge.kind, ge.name, e)
+			} else if row.fromWildcard {
+				// "Since this service was specified on its own, and not with a wildcard, if there is an existing entry,
+				// we overwrite it. The service entry is the source of truth." (updateGatewayServices)
+				m.report(verifC07KeyExplicitOverwritten, "gs:"+id, "after %s: %s entry %q lists %q explicitly but its gateway-services row is marked FromWildcard (it will be removed with the service's last instance): %+v", op.Desc, ge.kind, ge.name, e, row)
 			}
 		}
 		var ports []int
